@@ -3,8 +3,8 @@ package sim
 import (
 	"crypto/tls"
 	"encoding/json"
-	"net"
 	"fmt"
+	"net"
 	"os"
 	"runtime"
 	"runtime/debug"
